@@ -100,8 +100,11 @@ def render(n, edges, initial, final, strict, style, any_targets=(), bare_event=F
     name, `enum` declares the states through States.from_enum over an IntEnum that starts at 0 (a single
     final state is passed as a scalar), `dict` through States({...})."""
     style, *mods = style.split("+")
+    sub = "sub" in mods
     lines = [
-        "class M(StateMachine%s):" % (", strict_states=True" if strict else ""),
+        # `sub`: the graph is declared in a base class; the class under test only inherits it (and is the
+        # one that asks for strict_states)
+        "class %s(StateMachine%s):" % ("Base" if sub else "M", ", strict_states=True" if (strict and not sub) else ""),
     ]
     pre = ""
     if "enum" in mods:
@@ -169,8 +172,10 @@ def render(n, edges, initial, final, strict, style, any_targets=(), bare_event=F
         k += 1
     if bare_event:
         lines.append("    bare = Event()")
-    if lines[-1].startswith("class M("):
+    if lines[-1].startswith(("class M(", "class Base(")):
         lines.append("    pass")
+    if sub:
+        lines += ["", "class M(Base%s):" % (", strict_states=True" if strict else ""), "    pass"]
     return "\n".join(lines) + "\n"
 
 
@@ -315,6 +320,8 @@ def sampled_case(rng):
         style += "+enum"
     elif r < 0.32:
         style += "+dict" + ("+names" if rng.random() < 0.3 else "")
+    elif r < 0.42:
+        style += "+sub"
     return (n, edges, init, fin, strict, style, any_targets, bare)
 
 
